@@ -341,7 +341,23 @@ def main(argv: Optional[List[str]] = None) -> None:
     # ---- known findings: replay pinned reproducers
     findings = [f for f in load_findings() if f["property"] == prop]
     open_keys: List[str] = []
+    regressions: List[Failure] = []
+    n_regress = 0
     for ent in findings:
+        if ent.get("status") == "fixed" and "reproducer" in ent:
+            # a repaired defect suppresses nothing: its pinned input is replayed as a plain regression case
+            n_regress += 1
+            try:
+                f = mod.replay(ent["reproducer"])
+            except Failure as f2:
+                f = f2
+            except Exception as e:
+                print(f"HARNESS-ERROR: reproducer of fixed finding {ent['key']} crashed: {type(e).__name__}: {e}")
+                traceback.print_exc()
+                sys.exit(2)
+            if f is not None:
+                regressions.append(Failure("returned:" + ent["key"] + ":" + f.signature, ent["reproducer"], "defect repaired in " + str(ent.get("commit")) + " is back: " + f.message))
+            continue
         if ent.get("status") != "open":
             continue
         try:
@@ -380,7 +396,7 @@ def main(argv: Optional[List[str]] = None) -> None:
     # ---- classify failures
     violations = []
     seen = set()
-    for f in total.failures:
+    for f in [{"signature": r.signature, "case": r.case, "message": r.message} for r in regressions] + list(total.failures):
         if f["signature"] in seen:
             continue
         seen.add(f["signature"])
@@ -395,6 +411,7 @@ def main(argv: Optional[List[str]] = None) -> None:
         "excluded_by_known_finding": dict(total.excluded),
         "rejected_cleanly": dict(total.rejected),
         "open_known_findings": open_keys,
+        "pinned_regression_inputs_replayed": n_regress,
         "shards": nshards,
     }
     if total.exhaustive_domains:
